@@ -126,17 +126,27 @@ check("C07",
       "Lean 4 proof (whole create session accepted by a strict archive reader and decoded to the members written; compressor accounting; all inputs) + byte-for-byte correspondence of real sessions + independent reader exploration",
       "DESIGN.md §9.3 C07, §9.9")
 check("C08",
-      "Theorems (Lean): for EVERY base archive (files, folders incl. stream-less ones, sizes, digests) and EVERY "
-      "appended material, the sub-stream cursor gives the members that were already there exactly the folder, offset, "
-      "size and digest it gave them before (append_keeps_assignment: prefix stability of the cursor); re-serialised "
-      "partially defined vectors are read back unchanged (all lengths/patterns). Header re-serialisation is tied to "
-      "archiveinfo.py by hdr.w/hdr.r on non-writer-like headers. Exploration: histories w a a a over every chain, empty "
-      "/ dir-only sessions, password, header modes, bases = py7zr archives, third-party fixtures and reference-writer "
-      "layouts (packpos>0, partial vectors, folder CRCs, ...); after every session the member map is read by py7zr AND "
-      "by the independent reader and compared with all sessions' members in order. Partial: position arithmetic of "
-      "the append on the file (where new data starts) is explored, not proved.",
-      "Lean 4 proofs (cursor prefix stability, vector re-serialisation) + differential correspondence + history exploration with two independent readers",
-      "DESIGN.md §9.3 C08")
+      "Theorems (Lean, unbounded). history_conforms: for EVERY archive a create session followed by ANY number of append "
+      "sessions leaves (inductive predicate Written: each session with its own chain of arbitrary codec stages, coder "
+      "list and member list; the constructors' hypotheses are only the limits of the format and of py7zr's reader, and that "
+      "the bytes on disk are what the session model leaves), the strict archive reader accepts the file, the packed sizes of "
+      "all sessions tile the data area exactly, the format's assignment returns the members of ALL sessions in session "
+      "order - every earlier member with the folder, offset, size and CRC it had, the new ones behind them in one more "
+      "folder - and py7zr's own reader returns the header object the next session extends (written_good: induction over the "
+      "sessions on an archive invariant; Inv.base, Inv.append, Inv.content_append, Inv.append_image). "
+      "append_assignment_exact / append_cursor_exact: for every base header the format can read, the assignment after adding "
+      "a folder exists and is the base's assignment followed by the new folder's members (Spec and py7zr's cursor). "
+      "append_keeps_assignment (prefix stability of the cursor for any two readable headers), reserialise_times. Tie to the "
+      "code: ws.app (real append sessions with scripted codec stages on bases from real sessions: the append model - reader "
+      "model on the base image, Header.initialize() append branch, re-serialisation, file assembly without truncation - "
+      "predicts the file BYTE FOR BYTE), hdr.r-session, hdr.w/hdr.r with non-writer-like headers. Exploration: histories "
+      "w a a a over every chain, empty / dir-only sessions, password, header modes, bases = py7zr archives, third-party "
+      "fixtures and reference-writer layouts (packpos>0, partial vectors, folder CRCs, ...); after every session the member "
+      "map is read by py7zr AND by the independent reader. Partial: the theorem covers py7zr-written bases in raw header "
+      "mode with at least one member per append; third-party bases, encoded headers and member-less appends are covered by "
+      "ws.app / exploration only.",
+      "Lean 4 proof by induction over sessions (archive invariant established by create, preserved by append; strict archive reader recovers all sessions' members) + byte-for-byte correspondence of real append sessions + history exploration with two independent readers",
+      "DESIGN.md §9.3 C08, §9.10")
 check("C01",
       "Theorems (Lean, unbounded): the 7zAES residue buffers feed the cipher the stream exactly once, in order, in whole "
       "blocks, zero-padded, for every chunking (writer) / every chunking into >=1-block pieces (reader); chunked decoding "
